@@ -1,4 +1,5 @@
 """C07: UCI command lines are parsed totally and faithfully (parseGo, prepareInput, handleInput)."""
+from ._session import session_tie, SESSION_RULE
 
 _KW = ("wtime", "btime", "winc", "binc", "movestogo", "movetime", "depth", "nodes", "mate")
 
@@ -77,6 +78,7 @@ SPEC = {
             "n_quick": 26, "n_thorough": 400, "min_per_shard": 1000000, "max_shards": 1,
             "search_factor": 2, "stat": _proc_stat, "timeout": 1500,
         },
+        session_tie(["C07"]),
     ],
     "rule": "parseGo: regression corpus (D3 witnesses) + every keyword with every listed boundary / signed / "
             "overflowing / non-numeric value and with the value missing + every subset of the ten parameters "
@@ -87,7 +89,7 @@ SPEC = {
             "valid first token, non-ASCII and invalid UTF-8 bytes) through the real handleInput with a recording "
             "game against the extracted handle_line; non-trivial = the line is not blank. "
             "process-liveness: hostile scripts against the real engine binary, then isready -> readyok, quit -> exit 0. "
-            "distinct = distinct case lines",
+            "distinct = distinct case lines." + SESSION_RULE,
     "assumptions": [
         "strings.Fields is trusted; the model splits at ASCII white space only and the dispatch generator never "
         "writes a UTF-8 encoded non-ASCII space",
